@@ -193,6 +193,8 @@ def finish(pid, tier, seed, cfg, reports, drift, extra, t0):
                 if len(samples) < 6 and o["kind"] in ("post", "loop-preserved", "post-exc"):
                     samples.append({"obligation": o["name"], "clause": o.get("clause"), "kind": o["kind"], "verdict": "unsat (discharged) by " + o["backend"], "time_s": o["time_s"]})
             elif o["result"] == "failed":
+                if any(match_finding(k, pid, fid, o) for k in known["findings"]):
+                    obligations -= 1     # a listed known finding: outside the proved claim, reported as KNOWN-FINDING and under known_findings_hit
                 failed.append((fid, o))
             else:
                 undecided.append({"function": fid, "obligation": o["name"], "reason": o.get("reason") or "solver unknown/timeout in z3 and cvc5"})
